@@ -68,6 +68,10 @@ def unit_build_dir(unit, variant):
     u = UNITS[unit]
     v = VARIANTS[variant]
     srcs = [os.path.join(HARN, s) for s in u["src"]] + common_sources()
+    for spec in u.get("aux", {}).values():  # runner sources and every header next to them
+        d = os.path.dirname(os.path.join(HARN, spec["src"]))
+        srcs += sorted(glob.glob(os.path.join(d, "*.[ch]pp")))
+    srcs = sorted(set(srcs))
     key = "|".join([include_hash(), file_hash(srcs), json.dumps(u, sort_keys=True), json.dumps(v, sort_keys=True),
                     json.dumps(ARCHS, sort_keys=True), cc_version(v["cxx"])])
     hh = hashlib.sha256(key.encode()).hexdigest()[:16]
